@@ -24,9 +24,10 @@ func TestReplay(t *testing.T) {
 		t.Fatal(err)
 	}
 	var doc struct {
-		Property string       `json:"property"`
-		Kind     string       `json:"kind"`
-		Steps    []world.Step `json:"steps"`
+		Property string          `json:"property"`
+		Kind     string          `json:"kind"`
+		Steps    []world.Step    `json:"steps"`
+		AolGen   json.RawMessage `json:"aol_genesis"`
 	}
 	if err := json.Unmarshal(bz, &doc); err != nil {
 		t.Fatal(err)
@@ -37,7 +38,7 @@ func TestReplay(t *testing.T) {
 		if cfg == nil {
 			t.Fatalf("no machine for %s", doc.Property)
 		}
-		if _, err := replayHistory(cfg, doc.Steps); err != nil {
+		if _, err := replayHistory(cfg, doc.Steps, doc.AolGen); err != nil {
 			fmt.Printf("REPLAY-VIOLATION property=%s %v\n", doc.Property, err)
 			t.Fatalf("violation reproduced: %v", err)
 		}
